@@ -377,7 +377,7 @@ def exec_for(E, s: ast.For, st, fr):
         def run_body(state, dry):
             i = state.locals["$idx%d" % id(s)].z
             b = state
-            b.assume(i < dom["length"](b))
+            b.assume(i < dom["length"](b), True)
             elem = dom["elem"](b, i)
             E.assign(s.target, elem, b, fr)
             # structural unfolding of the visited prefix: Take(seq, i+1) = App(Take(seq, i), seq[i])
@@ -405,7 +405,7 @@ def exec_for(E, s: ast.For, st, fr):
         assume_invs(E, fr, head, spec, i)
         # 3. exit path
         exit_st = head.copy()
-        exit_st.assume(i >= dom["length"](exit_st))
+        exit_st.assume(i >= dom["length"](exit_st), True)
         if dom.get("seq") is not None:
             so = seq_ops(dom["et"])
             sq = dom["seq"](exit_st)
@@ -447,7 +447,7 @@ def exec_while(E, s: ast.While, st, fr):
 
         def run_body(state, dry):
             c = E.truthy(E.ev(s.test, state, fr), state, fr)
-            state.assume(c)
+            state.assume(c, True)
             return E.ex_block(s.body, state, fr)
 
         hy = any(isinstance(n, ast.Yield) for b in s.body for n in ast.walk(b))
@@ -463,7 +463,7 @@ def exec_while(E, s: ast.While, st, fr):
         c_exit = E.truthy(E.ev(s.test, exit_st, fr), exit_st, fr)
         cond_exc = fr.exc
         fr.exc = saved
-        exit_st.assume(z3.Not(c_exit))
+        exit_st.assume(z3.Not(c_exit), True)
         dec0 = None
         body_st = head.copy()
         if spec is not None and spec.decreases:
